@@ -432,6 +432,43 @@ def attester_model(tier, out):
         out["err"] = e
 
 
+# ---- family signer: what one call of the attester becomes at the accounts (spec/SignerBatch.tla; services/signer/standard) ----
+def signer_driver(scenarios, tag):
+    return vf.run_driver(PID, "./services/signer/standard", "TestVerifC01Signer", scenarios, "signer-" + tag)
+
+
+def signer_sig_of(s):
+    steps = s["steps"]
+    kinds = sorted(set(steps[0]["kinds"].values()))
+    return {"family": "signer", "kind": "signer", "account_kinds": kinds,
+            "a_request_fails": any(x["ev"] in ("AskBatch", "AskOne") and not x["ok"] for x in steps)}
+
+
+def signer_nontrivial(s, rows):
+    """A request of a call with at least two accounts came back as an error (the retry-after-failure clause)."""
+    n, failed = 0, False
+    for r in rows:
+        if r.get("ev") == "Call":
+            n, failed = len(r.get("accts", [])), False
+        elif r.get("ev") in ("AskBatch", "AskOne") and not r.get("ok") and n >= 2:
+            return True
+    return False
+
+
+def signer_family(v, tier):
+    n = 150 if tier == "quick" else 2000
+    v.add_mc(vf.tlc_exhaustive(PID, "SignerBatch", "MC_SignerBatch.cfg", workers=4, timeout=600, heap="1g", name="mc-signerbatch"))
+    d = vf.tlc(PID, "self-signerbatch-retry", "SignerBatch", "MC_SignerBatch_dev_retry.cfg", workers=1, timeout=600, heap="1g")
+    if d["kind"] != "invariant" or d["violated"] != "AtMostOnce":
+        raise vf.Broken("model self-check failed: retry-individually is not rejected by AtMostOnce (%s %s)" % (d["kind"], d["violated"]))
+    vf.log("model self-check: asking every account again by itself after a failed batch violates AtMostOnce (as it must)")
+    hs = vf.tlc_scenarios(PID, "Scen_SignerBatch", "Scen_SignerBatch.cfg", num=int(n * 1.05), depth=20, name="scen-signerbatch",
+                          heap="1g")[:n]
+    sc = [{"sc": 500000 + i, "kind": "signer", "steps": h} for i, h in enumerate(hs)]
+    vf.log("signer family: %d histories, %d calls" % (len(sc), sum(1 for s in sc for x in s["steps"] if x["ev"] == "Call")))
+    vf.conformance(v, sc, signer_driver, "Trace_SignerBatch", "Trace_SignerBatch.cfg", signer_sig_of, signer_nontrivial)
+
+
 def _run(v, tier, started):
     att = {}
     th = threading.Thread(target=attester_model, args=(tier, att))
@@ -441,6 +478,7 @@ def _run(v, tier, started):
     vf.conformance(v, sc, driver, TRACE[0], TRACE[1], sig_of, nontrivial, dfs=True,
                    chunk=None if tier == "quick" else 600)
     wired_conformance(v, wired_scenarios(tier))
+    signer_family(v, tier)
     run_vouch(v, tier)
     th.join()
     if "err" in att:
@@ -464,7 +502,10 @@ def _run(v, tier, started):
                           "empty or partial index list (validators of the duty already marked).  System level: environment "
                           "parts (clock, head events, reorgs, slow attestation data, fast track on/off) of TLC-simulated behaviours "
                           "of Vouch.tla replayed in real time on the real controller + real scheduler + real attester; non-trivial = "
-                          "a refresh withdrew a waiting job, the fast track started one, or a job body outlived its slot")
+                          "a refresh withdrew a waiting job, the fast track started one, or a job body outlived its slot.  "
+                          "Signer family (SignerBatch.tla): calls of the attester on the REAL signer service over fake accounts of the "
+                          "three kinds (wallet / Dirk / distributed Dirk) that log every request reaching them before answering, replies "
+                          "scripted by TLC-simulated histories; non-trivial = a request of a call with at least two accounts failed")
     return v.finish()
 
 
@@ -477,6 +518,9 @@ def replay(path):
         return 1 if v.violations else 0
     if s.get("kind") == "wired":
         wired_conformance(v, [s])
+        return 1 if v.violations else 0
+    if s.get("kind") == "signer":
+        vf.conformance(v, [s], signer_driver, "Trace_SignerBatch", "Trace_SignerBatch.cfg", signer_sig_of, signer_nontrivial)
         return 1 if v.violations else 0
     vf.conformance(v, [s], driver, TRACE[0], TRACE[1], sig_of, nontrivial, dfs=True)
     return 1 if v.violations else 0
